@@ -106,7 +106,8 @@ def wiring_tok(p):
     parts = []
     for (i, j) in pairs_of(n):
         c = p.sys.closure[types[i], types[j]]; U = p.sys.potential[types[i], types[j]]
-        parts.append('P%d%d %s %s %s' % (i, j, f2h(c.sigma), f2h(U.sigma), fl(c.potential)))
+        o = lambda v: 'N' if v is None else f2h(v)
+        parts.append('P%d%d %s %s %s' % (i, j, o(getattr(c, 'sigma', None)), o(getattr(U, 'sigma', None)), 'N' if getattr(c, 'potential', None) is None else fl(c.potential)))
     return ' '.join(parts) + ' om ' + ma_tok(p.omega)
 
 def cost_tok(p, y):
